@@ -23,6 +23,7 @@ RULE = (
     "text/Parquet x workers {1,3}; per (file, fold): exact affine relation, slope>0, anchors; then the same "
     "run repeated with test_fdr placed between the smallest and largest per-fold minimum target q-value (some "
     "fold accepts nothing) must raise. Non-trivial = >= 2 folds with >= 5 accepted targets each; distinct = case parameters."
+    " cli: mokapot.mokapot.main with --test_fdr != --train_fdr, its built-in model replaced by the recording model (vf.instruments.pipeline.cli_recording), judged at the command line's test FDR."
 )
 ASSUMPTIONS = [
     "accepted targets per fold are computed with mokapot.qvalues.tdc on the recorded raw outputs (its correctness is C01's business)",
@@ -43,10 +44,12 @@ def plan(seed, tier):
                       "test_fdr": float(prng.choice([0.01, 0.05, 0.2, 0.25, 0.5])),
                       "learner": ["linear", "svc"][(i // 3) % 2], "nfiles": [1, 2][(i // 4) % 2],
                       "fmt": ["pin", "parquet"][(i // 5) % 2], "workers": [1, 3][(i // 2) % 2], "cost": 3})
+    for i in range(4 if tier == "quick" else 48):
+        cases.append({"class": "cli", "index": i, "cost": 12})
     return cases
 
 
-MANDATORY_CLASSES = ["calibration"]
+MANDATORY_CLASSES = ["calibration", "cli"]
 
 
 def per_fold(tabs, log):
@@ -66,7 +69,129 @@ def per_fold(tabs, log):
     return {k: (np.array(v[0]), np.array(v[1]), np.array(v[2])) for k, v in groups.items()}
 
 
+def judge(res, tdc, tabs, out, test_fdr, extra):
+    """Judge one finished brew run (API or CLI) from the estimator log. Returns (minq, good_folds) or None when the run
+    ended in a state that was fully judged already (crash, refusal, fall-back)."""
+    groups = per_fold(tabs, out.get("log", []))
+    # expected behaviour from the recorded raw outputs
+    minq = {}
+    expected = {}
+    for key, (pos, raw, t) in groups.items():
+        if not t.any() or t.all():
+            continue
+        q = np.asarray(tdc(raw.astype(float), t, desc=True))
+        minq[key] = float(q[t].min())
+        acc = t & (q <= test_fdr)
+        if acc.any():
+            a = raw[acc].min()
+            m = np.median(raw[~t])
+            expected[key] = ((raw - a) / (a - m), a, m, int(acc.sum()))
+            if np.any(q[acc] == np.float32(test_fdr)):
+                res.count("folds_with_q_equal_to_threshold")
+        else:
+            expected[key] = None
+    must_refuse = any(v is None for v in expected.values()) and len(expected) > 0
+    if out["status"].startswith("crash"):
+        res.violate("crash", out["sig"], msg=out["error"]["msg"], **extra)
+        return None
+    if out["status"].startswith("refused"):
+        res["status"] = "refused"
+        res["note"] = out["error"]["msg"]
+        if groups and not must_refuse and "calibrate" in out["error"]["msg"].lower():
+            res.violate("refused_although_every_fold_accepts", "", minq={str(k): v for k, v in minq.items()}, **extra)
+        return None
+    # run returned scores
+    fell_back = any(np.asarray(s).ndim != 1 for s in out["scores"])
+    if fell_back or not groups:
+        res.count("fallback_or_untrained_runs")
+        res["status"] = "refused"
+        return None
+    if must_refuse:
+        res.violate("scores_returned_without_accepted_target", "first_run",
+                    folds_without=[str(k) for k, v in expected.items() if v is None], **extra)
+        return None
+    good_folds = 0
+    for key, (pos, raw, t) in groups.items():
+        if key not in expected:
+            continue
+        exp, a, m, nacc = expected[key]
+        if not a > m:
+            # lowest accepted target not above the decoy median: an increasing affine map cannot send
+            # a -> 0 and m -> -1, the statement's clauses contradict each other there; its quantifier
+            # ("every fold accepts ... above the decoy median") excludes this. Counted, not judged.
+            res.count("folds_anchor_not_above_decoy_median")
+            continue
+        ret = np.asarray(out["scores"][key[0]], dtype=float)[pos]
+        res.count("folds_checked")
+        if nacc >= 5:
+            good_folds += 1
+        if not np.allclose(ret, exp, rtol=1e-9, atol=1e-9):
+            # describe what relation does hold
+            A = np.column_stack([raw, np.ones_like(raw)])
+            coef, *_ = np.linalg.lstsq(A, ret, rcond=None)
+            resid = float(np.abs(A @ coef - ret).max())
+            at_a = float(ret[np.argmin(np.abs(raw - a))])
+            res.violate("calibration", "affine_but_wrong_anchor" if resid < 1e-7 and coef[0] > 0 else
+                        ("order_not_preserved" if coef[0] <= 0 or resid >= 1e-7 else "other"),
+                        fold=str(key), slope=float(coef[0]), residual=resid, returned_at_lowest_accepted=at_a,
+                        expected_anchor_raw=float(a), decoy_median_raw=float(m), n_accepted=nacc, **extra)
+            break
+        # stated consequences, checked directly on the returned values
+        o = np.argsort(raw, kind="stable")
+        # (float division may map raw outputs one ulp apart to the same value: equality is not a
+        # ranking change, a strict decrease is)
+        if np.any(np.diff(ret[o])[np.diff(raw[o]) > 0] < 0):
+            res.violate("calibration", "ranking_changed", fold=str(key), **extra)
+            break
+    return minq, good_folds
+
+
+def run_cli(case):
+    """The command-line tool with --test_fdr different from --train_fdr: the per-fold calibration must use the
+    evaluation FDR given on the command line. The built-in model is replaced by the recording linear model
+    (vf.instruments.pipeline.cli_recording) so that folds and raw outputs are known."""
+    tdc = core.mk("mokapot.qvalues").tdc
+    rng = core.seed_seq(case["seed"], "C11", "cli", case["index"])
+    res = Result(case)
+    train_fdr, test_fdr = [(0.01, 0.05), (0.05, 0.01), (0.01, 0.1), (0.1, 0.02)][case["index"] % 4]
+    with core.scratch("c11c") as d:
+        tabs, paths = [], []
+        for fi in range(1 + case["index"] % 2):
+            tab = psm.psm_table(rng, n_spectra=int(rng.integers(700, 1000)) * 2, mult_max=2, key_cols=("ExpMass",), file_index=fi,
+                                sep_strength=float(rng.choice([3.0, 4.0])), pi1=0.6)
+            tabs.append(tab)
+            paths.append(psm.write_pin(tab, d / f"f{fi}.pin"))
+        args = [*paths, "--dest_dir", d / "out", "--seed", int(rng.integers(1 << 20)), "--folds", int(2 + case["index"] % 2), "--max_iter", 2,
+                "--train_fdr", train_fdr, "--test_fdr", test_fdr, "-v", 0, "--max_workers", 1, "--override"]
+        with pipeline.cli_recording(tabs[0]["features"], learner=["linear", "svc"][case["index"] % 2]) as spy:
+            c = core.Call(core.mk("mokapot.mokapot").main, [str(a) for a in args])
+        res.count("cli_runs")
+        extra = dict(train_fdr=train_fdr, test_fdr=test_fdr, nfiles=len(tabs), entry="cli")
+        out = {"log": spy.log(), "status": "ok"}
+        if spy.brew_result is None:
+            if not c.ok:
+                out.update(status="refused" if c.explicit else "crash", error=c.info, sig=c.sig)
+            else:
+                res["status"] = "inconclusive"
+                res["note"] = "brew was not called through mokapot.mokapot.brew"
+                return res
+        else:
+            out["scores"] = [np.asarray(x, dtype=float) for x in spy.brew_result[2]]
+            if not c.ok and not c.explicit:
+                res.violate("crash", c.sig, msg=c.info["msg"], **extra)
+                return res
+        j = judge(res, tdc, tabs, out, test_fdr, extra)
+        if j is None:
+            return res
+        minq, good_folds = j
+        res["nontrivial"] = good_folds >= 2
+        res["sample"] = dict(extra, folds_checked=len(minq))
+    return res
+
+
 def run_case(case):
+    if case["class"] == "cli":
+        return run_cli(case)
     tdc = core.mk("mokapot.qvalues").tdc
     rng = core.seed_seq(case["seed"], "C11", case["index"])
     res = Result(case)
@@ -96,79 +221,12 @@ def run_case(case):
         res.count("task_kinds_finished_out_of_order", out.get("sched_out_of_order", 0))
         extra = {k: case[k] for k in ("folds", "test_fdr", "learner", "nfiles", "fmt", "workers")}
         extra["chunks"] = sizes
-        groups = per_fold(tabs, out.get("log", []))
-        # expected behaviour from the recorded raw outputs
-        minq = {}
-        expected = {}
-        for key, (pos, raw, t) in groups.items():
-            if not t.any() or t.all():
-                continue
-            q = np.asarray(tdc(raw.astype(float), t, desc=True))
-            minq[key] = float(q[t].min())
-            acc = t & (q <= case["test_fdr"])
-            if acc.any():
-                a = raw[acc].min()
-                m = np.median(raw[~t])
-                expected[key] = ((raw - a) / (a - m), a, m, int(acc.sum()))
-                if np.any(q[acc] == np.float32(case["test_fdr"])):
-                    res.count("folds_with_q_equal_to_threshold")
-            else:
-                expected[key] = None
-        must_refuse = any(v is None for v in expected.values()) and len(expected) > 0
-        if out["status"].startswith("crash"):
-            res.violate("crash", out["sig"], msg=out["error"]["msg"], **extra)
+        j = judge(res, tdc, tabs, out, case["test_fdr"], extra)
+        if j is None:
             return res
-        if out["status"].startswith("refused"):
-            res["status"] = "refused"
-            res["note"] = out["error"]["msg"]
-            if groups and not must_refuse and "calibrate" in out["error"]["msg"].lower():
-                res.violate("refused_although_every_fold_accepts", "", minq={str(k): v for k, v in minq.items()}, **extra)
-            return res
-        # run returned scores
-        fell_back = any(np.asarray(s).ndim != 1 for s in out["scores"])
-        if fell_back or not groups:
-            res.count("fallback_or_untrained_runs")
-            res["status"] = "refused"
-            return res
-        if must_refuse:
-            res.violate("scores_returned_without_accepted_target", "first_run",
-                        folds_without=[str(k) for k, v in expected.items() if v is None], **extra)
-            return res
-        good_folds = 0
-        for key, (pos, raw, t) in groups.items():
-            if key not in expected:
-                continue
-            exp, a, m, nacc = expected[key]
-            if not a > m:
-                # lowest accepted target not above the decoy median: an increasing affine map cannot send
-                # a -> 0 and m -> -1, the statement's clauses contradict each other there; its quantifier
-                # ("every fold accepts ... above the decoy median") excludes this. Counted, not judged.
-                res.count("folds_anchor_not_above_decoy_median")
-                continue
-            ret = np.asarray(out["scores"][key[0]], dtype=float)[pos]
-            res.count("folds_checked")
-            if nacc >= 5:
-                good_folds += 1
-            if not np.allclose(ret, exp, rtol=1e-9, atol=1e-9):
-                # describe what relation does hold
-                A = np.column_stack([raw, np.ones_like(raw)])
-                coef, *_ = np.linalg.lstsq(A, ret, rcond=None)
-                resid = float(np.abs(A @ coef - ret).max())
-                at_a = float(ret[np.argmin(np.abs(raw - a))])
-                res.violate("calibration", "affine_but_wrong_anchor" if resid < 1e-7 and coef[0] > 0 else
-                            ("order_not_preserved" if coef[0] <= 0 or resid >= 1e-7 else "other"),
-                            fold=str(key), slope=float(coef[0]), residual=resid, returned_at_lowest_accepted=at_a,
-                            expected_anchor_raw=float(a), decoy_median_raw=float(m), n_accepted=nacc, **extra)
-                break
-            # stated consequences, checked directly on the returned values
-            o = np.argsort(raw, kind="stable")
-            # (float division may map raw outputs one ulp apart to the same value: equality is not a
-            # ranking change, a strict decrease is)
-            if np.any(np.diff(ret[o])[np.diff(raw[o]) > 0] < 0):
-                res.violate("calibration", "ranking_changed", fold=str(key), **extra)
-                break
+        minq, good_folds = j
         res["nontrivial"] = good_folds >= 2
-        res["sample"] = dict(extra, folds_checked=len(expected), min_q_per_fold={str(k): round(v, 4) for k, v in minq.items()})
+        res["sample"] = dict(extra, folds_checked=len(minq), min_q_per_fold={str(k): round(v, 4) for k, v in minq.items()})
         # second run: same seed (same folds, same raw outputs), evaluation FDR between per-fold minima
         vals = sorted(set(minq.values()))
         if len(vals) >= 2 and vals[0] < vals[-1]:
